@@ -268,18 +268,29 @@ def replay_lines(comp, lines):
     f = os.path.join(rundir, f'replay-{os.getpid()}.ops')
     with open(f, 'w') as fh:
         fh.write('case replay\n' + '\n'.join(lines) + '\n')
-    rc, iout = sh([os.path.join(TARGET, 'debug', 'microdiff'), '--replay', f])
+    try:
+        rc, iout = sh([os.path.join(TARGET, 'debug', 'microdiff'), '--replay', f], timeout=30)
+    except subprocess.TimeoutExpired:
+        # the code under test does not terminate on this op list (a changed tree may loop): that is a disagreement
+        # with the model, and shrinking stops here
+        iout = 'case replay\n<the implementation did not terminate within 30 s on this operation list>'
+        REPLAY_HUNG[0] = True
     with open(f) as fi:
-        rc2, mout = sh([DRIVER[0]], stdin=fi)
+        rc2, mout = sh([DRIVER[0]], stdin=fi, timeout=120)
     os.unlink(f)
     return iout.splitlines()[1:], mout.splitlines()[1:]
+
+REPLAY_HUNG = [False]
 
 def shrink(comp, lines):
     """greedy delta-debugging: drop ops while impl and model still disagree somewhere"""
     def differs(ls):
         a, b = replay_lines(comp, ls)
         return a != b
+    REPLAY_HUNG[0] = False
     if not differs(lines):
+        return lines
+    if REPLAY_HUNG[0]:
         return lines
     n = 2
     cur = list(lines)
@@ -292,6 +303,8 @@ def shrink(comp, lines):
             budget -= 1
             if cand and differs(cand):
                 cur, n, reduced = cand, max(n - 1, 2), True
+                if REPLAY_HUNG[0]:
+                    return cur
                 break
             if budget <= 0:
                 break
@@ -411,11 +424,23 @@ def main():
                     failing.append(dict(kind='microdiff-oracle', component=comp, key=m.group(1), what=f))
         for b in cfg.get('bins', []):
             # stand-alone harness binaries: <bin> <seed> <n> <prefix> writing .ops/.impl/.stats
-            name, qn, tn = b
+            # optional 4th element: dict(env={...} extra environment of the run (e.g. one plan family only),
+            # keys=[...] the oracle keys that count for THIS property (others are listed as other_property_failures))
+            name, qn, tn = b[:3]
+            opts = b[3] if len(b) > 3 else {}
             rundir = os.path.join(CACHE, 'run')
             os.makedirs(rundir, exist_ok=True)
             prefix = os.path.join(rundir, f'{pid}-{tier}-{name}')
-            rc, out = sh([os.path.join(TARGET, 'debug', name), str(seed), str(tn if scale_thorough else qn), prefix], timeout=3600)
+            saved = {k: os.environ.get(k) for k in opts.get('env', {})}
+            os.environ.update(opts.get('env', {}))
+            try:
+                rc, out = sh([os.path.join(TARGET, 'debug', name), str(seed), str(tn if scale_thorough else qn), prefix], timeout=3600)
+            finally:
+                for k, v in saved.items():
+                    if v is None:
+                        os.environ.pop(k, None)
+                    else:
+                        os.environ[k] = v
             if rc != 0:
                 infra(f'{name} failed rc={rc}:\n{out[-2000:]}')
             st = parse_stats(prefix + '.stats')
@@ -426,7 +451,11 @@ def main():
                 res.setdefault('divergences', []).append(div)
             for f in st['oracle_fail']:
                 m = re.search(r'key=(\S+)', f)
-                failing.append(dict(kind='bin-oracle', component=name, key=m.group(1) if m else f[:60], what=f))
+                key = m.group(1) if m else f[:60]
+                if 'keys' in opts and key not in opts['keys']:
+                    st.setdefault('other_property_failures', []).append(f[:200])
+                    continue
+                failing.append(dict(kind='bin-oracle', component=name, key=key, what=f))
         for scen in cfg.get('sim', []):
             run_sim(pid, scen, seed, tier if not scale_thorough else 'thorough', stats, failing, broken)
     campaign(tier == 'thorough')
